@@ -403,12 +403,17 @@ class ConstEval:
             return True
         if isinstance(e, ast.IfExp):
             return self.eval(e.body if self.truth(self.eval(e.test, env, mod)) else e.orelse, env, mod)
-        if isinstance(e, ast.List):
-            return [self.eval(x, env, mod) for x in e.elts]
-        if isinstance(e, ast.Tuple):
-            return tuple(self.eval(x, env, mod) for x in e.elts)
-        if isinstance(e, ast.Set):
-            return {self.eval(x, env, mod) for x in e.elts}
+        if isinstance(e, (ast.List, ast.Tuple, ast.Set)):
+            items = []
+            for x in e.elts:
+                if isinstance(x, ast.Starred):
+                    v = self.eval(x.value, env, mod)
+                    if isinstance(v, (Opaque, Lazy)) or not hasattr(v, "__iter__"):
+                        raise NotConstant("star of a non-finite / opaque iterable in a display")
+                    items.extend(list(v))
+                else:
+                    items.append(self.eval(x, env, mod))
+            return items if isinstance(e, ast.List) else tuple(items) if isinstance(e, ast.Tuple) else set(items)
         if isinstance(e, ast.Dict):
             d = {}
             for k, v in zip(e.keys, e.values):
@@ -609,6 +614,17 @@ class ConstEval:
                 if di < 0:
                     raise NotConstant("missing argument")
                 loc[p] = self.eval(defaults[di], {}, f.mod)
+        for ka, kd in zip(a.kwonlyargs, a.kw_defaults):
+            if kw and ka.arg in kw:
+                loc[ka.arg] = kw[ka.arg]
+            elif kd is not None:
+                loc[ka.arg] = self.eval(kd, {}, f.mod)
+            else:
+                raise NotConstant(f"missing keyword-only argument {ka.arg}")
+        if a.vararg is not None:
+            loc[a.vararg.arg] = tuple(args[len(params):])
+        if a.kwarg is not None:
+            loc[a.kwarg.arg] = {k_: v_ for k_, v_ in (kw or {}).items() if k_ not in loc}
         try:
             self.exec_block(node.body, loc, f.mod)
         except _Return as r:
